@@ -873,14 +873,18 @@ class Interp:
             op = t[0]
             if op == "ev":
                 hev = self._ref_event(t[1])
-                if hev is None or id(hev) in used:
+                if hev is None:
                     return None
+                if id(hev) in used:
+                    h.bump("duplicate_operand")      # the same event may be an operand more than once
                 used.add(id(hev))
                 return hev
             if op == "proc":
                 T = self._ref_proc(t[1], pid, False)
-                if T is None or id(T.hev) in used:
+                if T is None:
                     return None
+                if id(T.hev) in used:
+                    h.bump("duplicate_operand")
                 used.add(id(T.hev))
                 return T.hev
             if op == "to":
